@@ -585,7 +585,10 @@ fn drive_sound<T: Transport>(t: T, p: &CmdParams, rng: &mut SmallRng) -> String 
 }
 
 pub fn run(p: &CmdParams, sc: &str) -> (Vec<Vec<String>>, Value) {
+    // every third scenario runs on a platform that maps buffers in place (no bounce copies)
+    INPLACE_MODE.with(|m| m.set(p.seed % 3 == 0));
     reset_world();
+    INPLACE_MODE.with(|m| m.set(false));
     let mut rng = SmallRng::seed_from_u64(p.seed);
     let zoo_kind = match p.kind.as_str() { "soundooo" => "sound", k => k };
     let display = [(1024u32, 768u32), (1, 1), (1920, 1080), (640, 480)][rng.gen_range(0..4)];
